@@ -1,10 +1,205 @@
-import Echse.Model.Sort
-import Echse.Model.Instant
+/-
+  C20 — `WikiSort` as instantiated in instant.c / event.c is a stable sort.
+
+  The comparison is induced by a key, `lt a b = decide (key a < key b)` (a strict weak order;
+  for instants the key is the position in the calendar order, for events that of `.from`).
+
+    S  the specification `stableSort` is a permutation, sorted, keeps the order of elements with
+       equal keys, and is the only list with these properties;
+    A  `InsertionSortBinary` (level-0 ranges) computes it;
+    B  `MergeExternal` of two sorted runs is the stable merge; the "already in order" shortcut of
+       the level loop gives the same result;
+    C  the fixed-point range iterator: at every level the range lengths sum to `size`, there is a
+       power of two of them, the ranges of the next level are the unions of adjacent pairs, and
+       `nextLevel` reports the end exactly when two ranges are left;
+    D  `wikiSortCache` (every level in the cache branch) returns the stable sort whenever it
+       returns, and it does return for every array shorter than 1024 elements.
+
+  Arrays of 1024 elements and more take the in-place branch, which is not transcribed
+  (`wikiSortCache = none`; see Model/Sort.lean).  Statements only; lemmas live in
+  Echse/Lemmas/Sort1..3.
+-/
+import Echse.Lemmas.Sort3
 namespace C20
 open Echse.Sort
 
-/-- smoke (general statements replace this) -/
-theorem stable_small : wikiSort (fun (a b : Nat × Nat) => a.1 < b.1) [(2, 0), (1, 1), (2, 2), (1, 3)]
-    = [(1, 1), (1, 3), (2, 0), (2, 2)] := by decide
+variable {α : Type} (lt : α → α → Bool) (key : α → Nat)
+
+/-! ### S: the specification -/
+
+/-- S(i) -/
+theorem stableSort_perm (hlt : ∀ a b, lt a b = decide (key a < key b)) (xs : List α) :
+    (stableSort lt xs).Perm xs :=
+  Echse.Sort.stableSort_perm lt key hlt xs
+
+/-- S(ii) -/
+theorem stableSort_sorted (hlt : ∀ a b, lt a b = decide (key a < key b)) (xs : List α) :
+    (stableSort lt xs).Pairwise (fun a b => key a ≤ key b) :=
+  Echse.Sort.stableSort_sorted lt key hlt xs
+
+/-- S(iii): elements that compare equal keep their relative order -/
+theorem stableSort_stable (hlt : ∀ a b, lt a b = decide (key a < key b)) (xs : List α) (k : Nat) :
+    (stableSort lt xs).filter (fun a => key a == k) = xs.filter (fun a => key a == k) :=
+  Echse.Sort.stableSort_stable lt key hlt xs k
+
+/-- S(iv): a sorted list with the same per-key subsequences as `xs` is `stableSort lt xs` -/
+theorem stableSort_unique (hlt : ∀ a b, lt a b = decide (key a < key b)) (xs l : List α)
+    (hs : l.Pairwise (fun a b => key a ≤ key b))
+    (hf : ∀ k, l.filter (fun a => key a == k) = xs.filter (fun a => key a == k)) :
+    l = stableSort lt xs :=
+  eq_stableSort lt key hlt xs l hs hf
+
+/-! ### A: binary insertion sort -/
+
+theorem insertionSortBinary_stableSort [Inhabited α] (hlt : ∀ a b, lt a b = decide (key a < key b))
+    (xs : List α) : insertionSortBinary lt xs = stableSort lt xs :=
+  insertionSortBinary_eq lt key hlt xs
+
+/-- what `BinaryLast` finds in a sorted list: the cut between the elements not greater than `t`
+and the greater ones -/
+theorem binaryLast_cut [Inhabited α] (hlt : ∀ a b, lt a b = decide (key a < key b))
+    (pre : List α) (t : α) (hs : pre.Pairwise (fun a b => key a ≤ key b)) :
+    (∀ x ∈ pre.take (binaryLast lt pre t), key x ≤ key t) ∧
+    (∀ x ∈ pre.drop (binaryLast lt pre t), key t < key x) :=
+  binaryLast_spec lt key hlt pre t hs
+
+/-! ### B: the external merge -/
+
+theorem mergeExternal_sorted (hlt : ∀ a b, lt a b = decide (key a < key b)) (a b : List α)
+    (ha : a.Pairwise (fun x y => key x ≤ key y)) (hb : b.Pairwise (fun x y => key x ≤ key y)) :
+    (mergeExternal lt a b).Pairwise (fun x y => key x ≤ key y) :=
+  Echse.Sort.mergeExternal_sorted lt key hlt a b ha hb
+
+/-- stable merge: on ties the elements of `a` come first -/
+theorem mergeExternal_stable (hlt : ∀ a b, lt a b = decide (key a < key b)) (a b : List α)
+    (ha : a.Pairwise (fun x y => key x ≤ key y)) (k : Nat) :
+    (mergeExternal lt a b).filter (fun x => key x == k)
+      = a.filter (fun x => key x == k) ++ b.filter (fun x => key x == k) :=
+  mergeExternal_fk lt key hlt k a b ha
+
+theorem mergeExternal_perm (a b : List α) : (mergeExternal lt a b).Perm (a ++ b) :=
+  Echse.Sort.mergeExternal_perm lt a b
+
+theorem mergeExternal_stableSort (hlt : ∀ a b, lt a b = decide (key a < key b)) (xs ys : List α) :
+    mergeExternal lt (stableSort lt xs) (stableSort lt ys) = stableSort lt (xs ++ ys) :=
+  Echse.Sort.mergeExternal_stableSort lt key hlt xs ys
+
+/-- the shortcut of the level loop: no merge when `!compare(B[0], A[last])` -/
+theorem mergeLevel_shortcut [Inhabited α] (hlt : ∀ a b, lt a b = decide (key a < key b))
+    (xs ys : List α)
+    (h : lt ((stableSort lt ys).headD default) ((stableSort lt xs).getLastD default) = false) :
+    stableSort lt xs ++ stableSort lt ys = stableSort lt (xs ++ ys) :=
+  append_stableSort_of_not_lt lt key hlt xs ys h
+
+/-- one level of the cache branch on sorted runs: the runs stay sorted, their lengths are the
+sums of adjacent pairs, elements with equal keys keep their order -/
+theorem mergeLevel_runs [Inhabited α] (hlt : ∀ a b, lt a b = decide (key a < key b))
+    (cs : List (List α)) (h : ∀ c ∈ cs, c.Pairwise (fun x y => key x ≤ key y)) :
+    (∀ c ∈ mergeLevel lt cs, c.Pairwise (fun x y => key x ≤ key y)) ∧
+    (mergeLevel lt cs).map List.length = pairSums (cs.map List.length) ∧
+    ∀ k, (mergeLevel lt cs).flatten.filter (fun x => key x == k)
+      = cs.flatten.filter (fun x => key x == k) :=
+  mergeLevel_spec lt key hlt cs h
+
+/-! ### C: the range iterator -/
+
+/-- All levels of `WikiIterator_new(size, 8)`, `size > 32`.  With `e + 1` the number of levels
+(`2 ≤ e + 1 ≤ 61`), level `l ≤ e` (the iterator after `l` calls of `nextLevel`) has `2^(e+1-l)`
+ranges (so level 0 has a power of two `≥ 4` of them), their lengths sum to `size`, each is
+`decimalStep` or `decimalStep + 1`, the ranges of the next level are the unions of adjacent pairs,
+and `nextLevel` returns `false` exactly at level `e`, where two ranges are left. -/
+theorem iter_levels (size : Nat) (h : 32 < size) :
+    ∃ e, 1 ≤ e ∧ e ≤ 60 ∧ ∀ l, l ≤ e →
+      let it := iterLevel l (WikiIter.new size 8)
+      let L := it.lengths (size + 1) 0 0
+      it.size = size ∧ L.length = 2 ^ (e + 1 - l) ∧ L.sum = size ∧
+      (∀ x ∈ L, x = it.decimalStep ∨ x = it.decimalStep + 1) ∧
+      it.nextLevel.1.lengths (size + 1) 0 0 = pairSums L ∧
+      it.nextLevel.2 = decide (l < e) :=
+  Echse.Sort.iter_levels size h
+
+/-- cutting into ranges and gluing back is the identity as soon as the lengths cover the array -/
+theorem chunks_roundtrip (L : List Nat) (xs : List α) (h : xs.length ≤ L.sum) :
+    (chunks L xs).flatten = xs :=
+  chunks_flatten L xs h
+
+/-- range boundaries in closed form: a level with `c` ranges cuts at `i * size / c` -/
+theorem iter_closed_form (it : WikiIter) (c w : Nat) (L : Lvl it c w) :
+    it.lengths (it.size + 1) 0 0
+      = (List.range' 0 c).map (fun i => (i + 1) * it.size / c - i * it.size / c) :=
+  lengths_level it c w L
+
+/-! ### D: the sort -/
+
+/-- whenever every level takes the cache branch, the result is the stable sort -/
+theorem wikiSortCache_spec [Inhabited α] (hlt : ∀ a b, lt a b = decide (key a < key b))
+    (xs : List α) (r : List α) (h : wikiSortCache lt xs = some r) : r = stableSort lt xs :=
+  wikiSortCache_eq lt key hlt xs r h
+
+/-- below 1024 elements every level takes the cache branch (and the model's fuel suffices);
+this needs nothing about `lt` -/
+theorem wikiSortCache_covers [Inhabited α] (xs : List α) (h : xs.length < 1024) :
+    (wikiSortCache lt xs).isSome :=
+  wikiSortCache_isSome lt xs h
+
+theorem wikiSort_small [Inhabited α] (hlt : ∀ a b, lt a b = decide (key a < key b))
+    (xs : List α) (h : xs.length < 1024) :
+    wikiSortCache lt xs = some (stableSort lt xs) ∧
+    wikiSort lt xs = stableSort lt xs ∧
+    (wikiSort lt xs).Perm xs ∧
+    (wikiSort lt xs).Pairwise (fun a b => key a ≤ key b) ∧
+    ∀ k, (wikiSort lt xs).filter (fun a => key a == k) = xs.filter (fun a => key a == k) := by
+  have hc := wikiSortCache_covers lt xs h
+  obtain ⟨r, hr⟩ := Option.isSome_iff_exists.mp hc
+  have e := wikiSortCache_spec lt key hlt xs r hr
+  subst e
+  have hw : wikiSort lt xs = stableSort lt xs := by
+    unfold wikiSort; rw [hr]; rfl
+  refine ⟨hr, hw, ?_, ?_, ?_⟩
+  · rw [hw]; exact stableSort_perm lt key hlt xs
+  · rw [hw]; exact stableSort_sorted lt key hlt xs
+  · intro k; rw [hw]; exact stableSort_stable lt key hlt xs k
+
+/-- the fallback of `wikiSort` makes the equation hold for every length; for 1024 elements and
+more this says nothing about the C code (in-place branch not transcribed) -/
+theorem wikiSort_eq [Inhabited α] (hlt : ∀ a b, lt a b = decide (key a < key b)) (xs : List α) :
+    wikiSort lt xs = stableSort lt xs := by
+  unfold wikiSort
+  cases h : wikiSortCache lt xs with
+  | none => rfl
+  | some r => exact wikiSortCache_spec lt key hlt xs r h
+
+/-! ### E: the hypotheses are satisfiable; concrete runs with ties -/
+
+/-- comparison of pairs on the first component (the second records the original position) -/
+def ltFst : Nat × Nat → Nat × Nat → Bool := fun a b => decide (a.1 < b.1)
+
+theorem ltFst_key : ∀ a b, ltFst a b = decide ((fun p : Nat × Nat => p.1) a < (fun p : Nat × Nat => p.1) b) :=
+  fun _ _ => rfl
+
+theorem wikiSort_ltFst (xs : List (Nat × Nat)) (h : xs.length < 1024) :
+    wikiSort ltFst xs = stableSort ltFst xs ∧ (wikiSort ltFst xs).Perm xs ∧
+    (wikiSort ltFst xs).Pairwise (fun a b => a.1 ≤ b.1) ∧
+    ∀ k, (wikiSort ltFst xs).filter (fun a => a.1 == k) = xs.filter (fun a => a.1 == k) :=
+  (wikiSort_small ltFst (fun p => p.1) ltFst_key xs h).2
+
+-- insertion sort only (at most 32 elements)
+example : wikiSort ltFst [(2, 0), (1, 1), (2, 2), (1, 3), (0, 4), (2, 5)]
+    = [(0, 4), (1, 1), (1, 3), (2, 0), (2, 2), (2, 5)] := by decide
+
+-- 44 elements: four level-0 ranges of 11 (binary insertion sort), then two merge levels
+example : (WikiIter.new 44 8).lengths 45 0 0 = [11, 11, 11, 11] := by decide
+
+example : wikiSortCache ltFst
+    [(3, 0), (1, 1), (3, 2), (4, 3), (2, 4), (4, 5), (0, 6), (3, 7), (5, 8), (1, 9), (4, 10),
+     (1, 11), (2, 12), (5, 13), (2, 14), (3, 15), (1, 16), (3, 17), (4, 18), (2, 19), (4, 20), (0, 21),
+     (3, 22), (5, 23), (1, 24), (4, 25), (1, 26), (2, 27), (5, 28), (2, 29), (3, 30), (1, 31), (3, 32),
+     (4, 33), (2, 34), (4, 35), (0, 36), (3, 37), (5, 38), (1, 39), (4, 40), (1, 41), (2, 42), (5, 43)]
+  = some
+    [(0, 6), (0, 21), (0, 36), (1, 1), (1, 9), (1, 11), (1, 16), (1, 24), (1, 26), (1, 31), (1, 39),
+     (1, 41), (2, 4), (2, 12), (2, 14), (2, 19), (2, 27), (2, 29), (2, 34), (2, 42), (3, 0), (3, 2),
+     (3, 7), (3, 15), (3, 17), (3, 22), (3, 30), (3, 32), (3, 37), (4, 3), (4, 5), (4, 10), (4, 18),
+     (4, 20), (4, 25), (4, 33), (4, 35), (4, 40), (5, 8), (5, 13), (5, 23), (5, 28), (5, 38), (5, 43)] := by
+  decide +kernel
 
 end C20
